@@ -131,6 +131,11 @@ def gen_clients(r, n):
                 inst_locs.append([k, r.pick(dirs)])
         clients.append({'id': cid, 'base': base, 'class_locs': class_locs,
                         'inst_locs': inst_locs})
+    if n >= 2 and r.chance(0.25):
+        # two distinct test classes that happen to have the same name
+        # (made by a factory, or the class statement executed twice)
+        for c in clients:
+            c['cls_name'] = 'TestResults'
     return clients
 
 
@@ -171,9 +176,10 @@ def gen_storage_fault(r, target):
 
 
 def gen_c04(r, tier):
-    clients = gen_clients(r, 1)
+    clients = gen_clients(r, r.weighted([(3, 1), (1, 2)]))
     ops = []
     for c in range(r.weighted([(5, 1), (3, 2), (1, 3)])):
+        who = r.pick(clients)['id']
         name = 'r%d.txt' % c
         kind = r.pick(KINDS[:3])
         entry = r.weighted([(4, 'string'), (4, 'textfile'), (2, 'textfiles')])
@@ -182,17 +188,17 @@ def gen_c04(r, tier):
         opts = cases[0]['opts']
         refs = ['r%d_%d.txt' % (c, j) for j in range(n_files)]
         for j, cs in enumerate(cases):
-            ops.append({'op': 'write_ref', 'client': 'T0', 'kind': kind,
+            ops.append({'op': 'write_ref', 'client': who, 'kind': kind,
                         'ref': refs[j], 'text': cs['ref_text']})
         if entry == 'string':
-            a = {'op': 'assert_string', 'client': 'T0', 'kind': kind,
+            a = {'op': 'assert_string', 'client': who, 'kind': kind,
                  'ref': refs[0], 'actual': cases[0]['act_text'], 'opts': opts,
                  'muts': cases[0]['muts']}
             fault_targets = [('ref', 0)]
         else:
             files = ['a%d_%d.txt' % (c, j) for j in range(n_files)]
             a = {'op': 'assert_textfile' if entry == 'textfile'
-                 else 'assert_textfiles', 'client': 'T0', 'kind': kind,
+                 else 'assert_textfiles', 'client': who, 'kind': kind,
                  'refs': refs, 'ref': refs[0], 'actual_files': [
                      {'name': files[j], 'text': cases[j]['act_text']}
                      for j in range(n_files)], 'opts': opts,
@@ -648,12 +654,12 @@ def build_clients(ctx, clients):
     for c in clients:
         base = c['base']
         if base == 'ReferenceTest':
-            cls = type(c['id'], (rt.ReferenceTest,), {})
+            cls = type(c.get('cls_name', c['id']), (rt.ReferenceTest,), {})
         elif base == 'ReferenceTestCase':
-            cls = type(c['id'], (rtc.ReferenceTestCase,),
+            cls = type(c.get('cls_name', c['id']), (rtc.ReferenceTestCase,),
                        {'runTest': lambda self: None})
         else:
-            cls = type(c['id'], (ctx.classes[base],), {})
+            cls = type(c.get('cls_name', c['id']), (ctx.classes[base],), {})
         ctx.classes[c['id']] = cls
         if c.get('tmp_dir'):
             tp = W.path(c['tmp_dir'])
@@ -1331,10 +1337,9 @@ def check_c15(ctx, op, mode, outcome, exc, delta, log, rpaths, apaths,
         ctx.stats['abstain']['assertion_raised_non_assertion_error'] += 1
         return
     ctx.stats['checks']['failing_assertions_audited'] += 1
-    if fired:
-        # the artefacts could not be written: their content is not promised
-        ctx.stats['abstain']['artefact_write_failed'] += 1
-        return
+    # (an I/O error while writing the artefacts normally ends the assertion
+    # in OSError, handled above; if it still ends as an ordinary failure the
+    # message's claims about its files are checked like any other)
     msg = str(exc)
     if op.get('actual_missing'):
         # there is no actual to compare or to copy: only the audit above
@@ -1358,6 +1363,12 @@ def check_c15(ctx, op, mode, outcome, exc, delta, log, rpaths, apaths,
                 return
     if opts and outcome == 'fail':
         ctx.nontrivial = True
+    if fired and 'Error comparing' in msg:
+        # the multi-file entry point reports an exception raised while one
+        # pair was being handled inside the failure message: the caller was
+        # told, the artefacts of that pair are not promised
+        ctx.stats['abstain']['artefact_write_error_reported_in_message'] += 1
+        return
     if op['op'] == 'assert_binary':
         check_c15_binary(ctx, op, msg, rpaths, apaths)
         return
